@@ -35,6 +35,8 @@ type zzMemDS struct {
 	gates      bool
 	gatesAfter bool
 	reads      int
+	// failedTaggedCommit: a batch commit made on behalf of a tagged caller (see zzTagKey) hit an injected fault
+	failedTaggedCommit string
 }
 
 var zzErrWrite = errors.New("zz: datastore write failure")
@@ -178,6 +180,11 @@ func (b *zzBatch) Commit(ctx context.Context) error {
 		return nil
 	}
 	if b.d.failNow() {
+		if ctx != nil {
+			if tag, ok := ctx.Value(zzTagKey{}).(string); ok {
+				b.d.failedTaggedCommit = tag
+			}
+		}
 		return zzErrWrite
 	}
 	b.d.apply(b.ops)
